@@ -83,9 +83,32 @@ def _run_generated(stream, n, sd, coll):
     @_settings(n, [Phase.generate])
     @given(strat)
     def t(case):
-        coll.add(case, stream.check(case), stream.name, sd, n)
+        coll.add(case, guarded(stream.check, case), stream.name, sd, n)
 
     t()
+
+
+def guarded(check, case, **kw):
+    """Run a check.  An exception that escapes from pjplan itself (innermost frame inside the package) on an input the
+    check considers valid is a finding - the call the property speaks about crashed; an exception raised by the
+    harness' own code stays a harness error (exit 2)."""
+    import traceback
+    try:
+        return check(case, **kw)
+    except Exception as e:
+        tb = traceback.extract_tb(e.__traceback__)
+        inner = tb[-1].filename if tb else ''
+        lib = os.path.join(os.path.realpath(env.REPO), 'src', 'pjplan') + os.sep
+        if os.path.realpath(inner).startswith(lib):
+            res = Result()
+            where = os.path.realpath(inner)[len(lib):] + ':' + tb[-1].name
+            res.v('%s:pjplan-call-crashes-with-%s:%s' % (PROP_ID[0], type(e).__name__, where), dict(error=repr(e)[:300]))
+            res.sample = case
+            return res
+        raise
+
+
+PROP_ID = ['C??']
 
 
 class _Found(Exception):
@@ -108,7 +131,7 @@ def _shrink(stream, sig, sd, n, cap_s):
     @_settings(n, [Phase.generate, Phase.shrink])
     @given(strat)
     def t(case):
-        r = stream.check(case)
+        r = guarded(stream.check, case)
         for s, d in r.viol:
             if s == sig:
                 size = len(jcanon(case))
@@ -133,12 +156,13 @@ def _shard(args):
     try:
         env.import_pjplan()
         mod = importlib.import_module(modname)
+        PROP_ID[0] = mod.ID
         coll = Collector()
         for si, stream in enumerate(mod.streams(tier)):
             if stream.exhaustive is not None:
                 for i, case in enumerate(stream.exhaustive(tier)):
                     if i % nproc == k:
-                        coll.add(case, stream.check(case), stream.name, None, None)
+                        coll.add(case, guarded(stream.check, case), stream.name, None, None)
             if stream.strategy is not None:
                 total = stream.examples.get(tier, 0)
                 n = (total + nproc - 1) // nproc
@@ -155,6 +179,7 @@ def _shrink_job(args):
     try:
         env.import_pjplan()
         mod = importlib.import_module(modname)
+        PROP_ID[0] = mod.ID
         stream = [s for s in mod.streams(tier) if s.name == stream_name][0]
         return (sig, _shrink(stream, sig, sd, n, cap))
     except Exception:
@@ -175,7 +200,8 @@ def replay_file(mod, tier, path):
     with open(path) as f:
         rec = json.load(f)
     stream = _stream_by_name(mod, tier, rec.get('stream'))
-    res = stream.check(rec['case'], exclude=False)
+    PROP_ID[0] = mod.ID
+    res = guarded(stream.check, rec['case'], exclude=False)
     return rec, res
 
 
